@@ -947,6 +947,25 @@ impl<'a> BInterp<'a> {
                 let m = std::mem::replace(&mut self.model, MNode::Leaf { rest: vec![], extra: 0, chunk_cap: usize::MAX });
                 self.model = MNode::Wrap(Box::new(m));
             }
+            18 if b % 3 == 2 && rem <= 4096 && mat >= rem => {
+                // nth past the end (what skip(n) / step_by do on a short sequence): None, and - like std's default nth - everything consumed
+                let n = rem + (a as usize % 3);
+                btr!(self, "into_iter().nth({}) with {} bytes left, then into_inner()", n, rem);
+                let root = self.root.take().unwrap();
+                let mut it = bytes::buf::IntoIter::new(root);
+                let r = catch_unwind(AssertUnwindSafe(|| (it.nth(n), it.size_hint(), it.next())));
+                match r {
+                    Ok((x, hint, again)) => {
+                        if x.is_some() || again.is_some() || hint != (0, Some(0)) {
+                            self.v("C09", "into_iter-nth-past-the-end", format!("nth({}) on {} bytes returned {:?}, then size_hint {:?} and next() {:?}", n, rem, x, hint, again));
+                        }
+                        self.model.advance(rem);
+                        self.note_span(rem, rem, chunk);
+                    }
+                    Err(_) => self.v("C09", "unexpected-panic", "IntoIter::nth panicked".to_string()),
+                }
+                self.root = Some(it.into_inner());
+            }
             18 => {
                 let k = sel_n(a, chunk, rem).min(rem).min(2048);
                 btr!(self, "into_iter(): take {} items, then into_inner()", k);
@@ -954,10 +973,21 @@ impl<'a> BInterp<'a> {
                 let mut it = bytes::buf::IntoIter::new(root);
                 let r = catch_unwind(AssertUnwindSafe(|| {
                     let mut v = Vec::new();
-                    for _ in 0..k {
-                        match it.next() {
-                            Some(b) => v.push(b),
-                            None => break,
+                    if b % 3 == 1 && k >= 1 {
+                        // the same through nth (which skip / step_by use): k-1 items skipped, the k-th returned
+                        for _ in 0..(k - 1).min(3) {
+                            v.extend(it.next());
+                        }
+                        let skipped = k - 1 - (k - 1).min(3);
+                        let x = it.nth(skipped);
+                        v.extend_from_slice(&rest[v.len()..v.len() + skipped]); // (the skipped items are not seen; the returned one is)
+                        v.extend(x);
+                    } else {
+                        for _ in 0..k {
+                            match it.next() {
+                                Some(b) => v.push(b),
+                                None => break,
+                            }
                         }
                     }
                     (v, it.size_hint())
